@@ -8,10 +8,37 @@ use std::convert::Infallible;
 use std::hash::{Hash, Hasher};
 use std::panic::{catch_unwind, AssertUnwindSafe};
 
+thread_local! {
+    static POST_PANIC_BAD: std::cell::Cell<bool> = std::cell::Cell::new(false);
+}
+
+/// Looks at the subject of an in-place operation while a panic unwinds through it: a refused growth must not
+/// leave the vector with len > capacity (C19: "never ends up with len > capacity").
+struct PanicWatch<A: BitVector>(*const A);
+impl<A: BitVector> Drop for PanicWatch<A> {
+    fn drop(&mut self) {
+        if std::thread::panicking() {
+            // the pointee is a local of the frame being unwound, declared before the watch: still alive here
+            let a = unsafe { &*self.0 };
+            if a.len() > a.capacity() {
+                POST_PANIC_BAD.with(|f| f.set(true));
+            }
+        }
+    }
+}
+
 pub fn exec(c: &Case) -> Res {
+    POST_PANIC_BAD.with(|f| f.set(false));
     match catch_unwind(AssertUnwindSafe(|| exec_inner(c))) {
         Ok(r) => r,
-        Err(_) => Res::Panic,
+        Err(_) => {
+            if POST_PANIC_BAD.with(|f| f.get()) {
+                // the operation panicked (fine) but left its subject with len > capacity
+                Res::Err(16, 0)
+            } else {
+                Res::Panic
+            }
+        }
     }
 }
 
@@ -462,9 +489,21 @@ struct Dribble {
     data: Vec<u8>,
     pos: usize,
     chunk: usize,
+    calls: usize,
 }
 impl std::io::Read for Dribble {
     fn read(&mut self, buf: &mut [u8]) -> std::io::Result<usize> {
+        if self.chunk == 0 {
+            // mode 3: every other call is interrupted (callers must retry), the others hand out two bytes
+            self.calls += 1;
+            if self.calls % 2 == 1 {
+                return Err(std::io::Error::from(std::io::ErrorKind::Interrupted));
+            }
+            let n = buf.len().min(2).min(self.data.len() - self.pos);
+            buf[..n].copy_from_slice(&self.data[self.pos..self.pos + n]);
+            self.pos += n;
+            return Ok(n);
+        }
         let n = buf.len().min(self.chunk).min(self.data.len() - self.pos);
         buf[..n].copy_from_slice(&self.data[self.pos..self.pos + n]);
         self.pos += n;
@@ -476,9 +515,19 @@ impl std::io::Read for Dribble {
 struct ShortWriter {
     data: Vec<u8>,
     chunk: usize,
+    calls: usize,
 }
 impl std::io::Write for ShortWriter {
     fn write(&mut self, buf: &[u8]) -> std::io::Result<usize> {
+        if self.chunk == 0 {
+            self.calls += 1;
+            if self.calls % 2 == 1 {
+                return Err(std::io::Error::from(std::io::ErrorKind::Interrupted));
+            }
+            let n = buf.len().min(2);
+            self.data.extend_from_slice(&buf[..n]);
+            return Ok(n);
+        }
         let n = buf.len().min(self.chunk);
         self.data.extend_from_slice(&buf[..n]);
         Ok(n)
@@ -697,7 +746,7 @@ fn ctor<K: Extra + FromIterator<Bit>>(c: &Case) -> Res {
                 }
             } else {
                 // arg 2: 1 = one byte per read() call, 2 = three bytes per call
-                let mut rd = Dribble { data: bytes.clone(), pos: 0, chunk: if c.a(2) == 1 { 1 } else { 3 } };
+                let mut rd = Dribble { data: bytes.clone(), pos: 0, chunk: match c.a(2) { 1 => 1, 2 => 3, _ => 0 }, calls: 0 };
                 match K::read(&mut rd, c.a(0) as usize, endian(c.a(1))) {
                     Ok(v) => Res::Ok(vec![Item::V(v.to_raw()), Item::N((bytes.len() - rd.pos) as u128)]),
                     Err(e) => io_code(&e),
@@ -727,6 +776,7 @@ fn ctor<K: Extra + FromIterator<Bit>>(c: &Case) -> Res {
 fn unary<A: Extra + Extend<Bit>>(c: &Case) -> Res {
     let a0 = A::from_raw(&c.vals[0]);
     let mut a = a0.clone();
+    let _watch = PanicWatch(&a as *const A);
     match c.op {
         12 => v1(&a),
         20 => n1(a.capacity() as u128),
@@ -741,7 +791,7 @@ fn unary<A: Extra + Extend<Bit>>(c: &Case) -> Res {
                     Err(e) => io_code(&e),
                 }
             } else {
-                let mut w = ShortWriter { data: vec![], chunk: if c.a(1) == 1 { 1 } else { 3 } };
+                let mut w = ShortWriter { data: vec![], chunk: match c.a(1) { 1 => 1, 2 => 3, _ => 0 }, calls: 0 };
                 match a.write(&mut w, endian(c.a(0))) {
                     Ok(()) => l1(w.data.iter().map(|b| *b as u128).collect()),
                     Err(e) => io_code(&e),
@@ -886,6 +936,7 @@ where
 {
     let mut a = A::from_raw(&c.vals[0]);
     let b = B::from_raw(&c.vals[1]);
+    let _watch = PanicWatch(&a as *const A);
     let r = match c.op {
         11 => match A::try_from(&b) {
             Ok(v) => v1(&v),
